@@ -4,9 +4,6 @@ use crate::parsing::response::parse_response;
 use crate::request::PreparedRequest;
 use crate::streams::BaseStream;
 use http::Method;
-use std::alloc::{GlobalAlloc, Layout, System};
-use std::cell::Cell;
-use std::sync::atomic::{AtomicUsize, Ordering};
 
 fn valid_len(v: &str) -> Option<Option<u64>> {
     // Some(Some(n)) valid, Some(None) must be refused, None = not settled by the property (leading '+')
@@ -423,40 +420,9 @@ fn vp_native_head_any_segmentation_body() {
     println!("VP-NATIVE head_any_segmentation cases={}", cases);
 }
 
-// ---- an allocator that records the largest single request made by a thread that asked for it (C05: no allocation proportional to a
-// size that is merely declared on the wire); everything is passed on to the system allocator
-struct Counting;
-// ---- watchdog: a parser that spins on a finite input must fail the check, not hang it.  Every allocation made anywhere in the
-// test binary is a heartbeat (the counting allocator below); a test body runs on its own thread and the test fails when no
-// allocation at all happened for STALL_SECS while the body has not finished.
-static ALLOC_BEAT: std::sync::atomic::AtomicU64 = std::sync::atomic::AtomicU64::new(0);
-const STALL_SECS: u64 = 30;
-fn watched(body: fn()) {
-    let (tx, rx) = std::sync::mpsc::channel();
-    std::thread::Builder::new().name(std::thread::current().name().unwrap_or("vp_native").to_string()).stack_size(16 << 20).spawn(move || { let r = std::panic::catch_unwind(body); let _ = tx.send(r); }).unwrap();
-    let (mut last, mut idle) = (u64::MAX, 0u64);
-    loop {
-        match rx.recv_timeout(std::time::Duration::from_secs(1)) {
-            Ok(Ok(())) => return,
-            Ok(Err(p)) => std::panic::resume_unwind(p),
-            Err(std::sync::mpsc::RecvTimeoutError::Timeout) => {
-                let now = ALLOC_BEAT.load(Ordering::Relaxed);
-                if now == last { idle += 1; } else { idle = 0; last = now; }
-                if idle >= STALL_SECS { panic!("the code under test made no progress for {} s and did not return (non-termination on a finite input)", STALL_SECS); }
-            }
-            Err(_) => panic!("the check's body thread vanished"),
-        }
-    }
-}
-static PEAK: AtomicUsize = AtomicUsize::new(0);
-thread_local! { static WATCH: Cell<bool> = const { Cell::new(false) }; }
-unsafe impl GlobalAlloc for Counting {
-    unsafe fn alloc(&self, l: Layout) -> *mut u8 { ALLOC_BEAT.fetch_add(1, Ordering::Relaxed); if WATCH.try_with(|w| w.get()).unwrap_or(false) { PEAK.fetch_max(l.size(), Ordering::SeqCst); } System.alloc(l) }
-    unsafe fn dealloc(&self, p: *mut u8, l: Layout) { System.dealloc(p, l) }
-    unsafe fn realloc(&self, p: *mut u8, l: Layout, n: usize) -> *mut u8 { if WATCH.try_with(|w| w.get()).unwrap_or(false) { PEAK.fetch_max(n, Ordering::SeqCst); } System.realloc(p, l, n) }
-    unsafe fn alloc_zeroed(&self, l: Layout) -> *mut u8 { if WATCH.try_with(|w| w.get()).unwrap_or(false) { PEAK.fetch_max(l.size(), Ordering::SeqCst); } System.alloc_zeroed(l) }
-}
-#[global_allocator] static ALLOC: Counting = Counting;
+// (the counting allocator and the watchdog live in native/watchdog.rs, shared by every native file)
+use crate::verif_native_watchdog::{watched, PEAK, WATCH};
+use std::sync::atomic::Ordering;
 
 /// C05: sizes that are merely declared (Content-Length, chunk sizes) never drive an allocation: a response announcing up to 2^64-1
 /// bytes and delivering a few is an error of the accessors, without panic, and no single allocation exceeds a few hundred KiB
